@@ -556,25 +556,32 @@ func determinismStraddle(run *ev.Run, c int, tmp string, D time.Duration) {
 	if !T.After(r.Time) {
 		T = r.Time.Add(time.Second)
 	}
-	const probeBlocks = 30
+	// at least probeMin blocks; if by then nothing that reads the oracle exchange rate has succeeded on the probe
+	// timestamps (the rate feed may be between two values, or other workloads' parameter changes may be in the way), the
+	// phase goes on until three such operations have succeeded, up to probeMax blocks
+	const probeMin, probeMax = 30, 120
 	probeStart := len(gen.Blocks)
 	pricedOK := func() int64 {
 		return run.Counters["priced-bind-ok"] + run.Counters["priced-update-ok"] + run.Counters["priced-call-ok"]
 	}
 	priced0 := pricedOK()
-	for b := 0; b < probeBlocks; b++ {
+	for b := 0; b < probeMax; b++ {
 		wb := time.Now().UnixNano()
 		br := chain.StepAt(T.Add(time.Duration(b) * time.Second))
 		gen.Blocks = append(gen.Blocks, observeBlock(r, br, wb, time.Now().UnixNano()))
+		if b+1 >= probeMin && pricedOK() >= priced0+3 {
+			break
+		}
 	}
 	j.Close()
 	run.Count("probe-phase-priced-ops-ok", pricedOK()-priced0)
+	run.Count("probe-phase-blocks", int64(len(gen.Blocks)-probeStart))
 	if pricedOK() == priced0 {
 		// nothing that reads the oracle exchange rate succeeded on the probe timestamps: this execution pair cannot show a
 		// host-clock dependence of that path either way
 		run.Inconc("straddle D=%s: no operation priced through the oracle exchange rate succeeded during the probe phase", D)
 	}
-	lastT := T.Add(time.Duration(probeBlocks-1) * time.Second)
+	lastT := r.Time
 	notBefore := lastT.Add(D + 4*time.Second)
 	r1, err := runReplica(nil, "--journal", jpath, "--seed", seed, "--mode", "later", "--not-before", fmt.Sprint(notBefore.UnixNano()), "--out", filepath.Join(tmp, "r1.json"))
 	if err != nil {
